@@ -111,6 +111,11 @@ func c16Shapes(tier string) map[string]func() any {
 		"long_str":    func() any { return strings.Repeat("x", 1024) },
 		"float":       func() any { return 1.5 },
 		"template":    func() any { return "{{.NOPE}} {{" },
+		// strings that a shell-word expansion (dir:, include taskfile:/dir:) reads as no word or as an error
+		"hash_str":     func() any { return "#out" },
+		"backslash_nl": func() any { return "\\\n" },
+		"blank_str":    func() any { return " \t " },
+		"shell_meta":   func() any { return "$(x ${ `" },
 	}
 	for _, k := range c16Known {
 		k := k
